@@ -125,7 +125,7 @@ def canon_real(s):
 
 def run_three_way(ops, tag, jobs=None, want_spec=True, want_impl=True, timeout=3600):
     """ops: list of op lines. Returns (real, impl, spec) lists of result lines."""
-    jobs = jobs or min(16, max(1, len(ops) // 200 + 1), os.cpu_count() or 4)
+    jobs = jobs or min(16, max(1, len(ops) // 12 + 1), os.cpu_count() or 4)
     d = os.path.join(WORK, tag)
     os.makedirs(d, exist_ok=True)
     chunks = [ops[i::jobs] for i in range(jobs)]
